@@ -800,10 +800,22 @@ mod imp {
         let mut goals = 0u64;
         let mut steps = 0u64;
         let mut fp = 0u64;
-        for (n, (i, j, l, r)) in q.qs.iter().enumerate() {
-            if !e.eqs[n] {
-                continue;
+        // the queries the oracle says are equal; then, for pairs of DIFFERENT tracked terms, the same pair one level up
+        // (u(l) = u(r), equal by congruence) where u(r) was never inserted: the query itself is its first insertion
+        let mut queries: Vec<(usize, usize, T, T)> = q.qs.iter().enumerate().filter(|(n, _)| e.eqs[*n]).map(|(_, (i, j, l, r))| (*i, *j, l.clone(), r.clone())).collect();
+        let tracked: BTreeSet<String> = rec.iter().map(|(t, _)| t.to_sexp()).collect();
+        let mut wrapped: Vec<(usize, usize, T, T)> = Vec::new();
+        for (i, j, l, r) in &queries {
+            let (wl, wr) = (node1("u", l.clone()), node1("u", r.clone()));
+            if i != j && !tracked.contains(&wr.to_sexp()) && !wrapped.iter().any(|w| w.3 == wr) && wrapped.len() < 8 {
+                wrapped.push((*i, *j, wl, wr));
             }
+        }
+        if !wrapped.is_empty() {
+            goals |= 1 << 11;
+        }
+        queries.extend(wrapped);
+        for (i, j, l, r) in queries.iter() {
             evals += 1;
             let lre = to_recexpr(l, nm);
             let rre = to_recexpr(r, nm);
@@ -1009,10 +1021,11 @@ impl Prop for ExplainProp {
             "step_explicit",
             "leaf_justified_by_rule_name_checked",
             "printed_proof_of_several_lines_read_back",
+            "query_whose_second_term_is_inserted_by_the_query",
         ]
     }
     fn rule(&self) -> String {
-        "Every multiset of union/insert operations of the stated depth over the stated alphabets (incl. 3-cycles on a 3-slot leaf, all 23 permutations on a 4-slot leaf, redundancy, self-reference, binders), every distinct ordering (and the all-flipped orientation), is executed with union_justified and a distinct label per asserted equation, in the `explanations` build (thorough: also with the crate's internal checks). For EVERY pair of tracked (sub)terms and relative naming that the ground congruence closure says is equal, explain_equivalence must return; an independent checker that works on terms (get_syn_expr of both sides of every ProvenEqRaw::equ) walks the proof DAG once: reflexivity (alpha-equal sides), symmetry (flip up to renaming), transitivity (renamings injective on each side of each premise that agree on the middle term), congruence (same operator and slot arguments, binders renamed alike, children match premises position-wise), explicit leaves (instance of the user's equation with that label), and the root concludes the queried equation up to injective renaming.  ProvenEqRaw::to_string of every valid proof is parsed back and compared with the proof DAG (one line per distinct step, consecutive numbers, references to earlier lines only, equation, rule and premises of every line as in the DAG, root last, rendering twice gives the same text). Non-trivial = number of proof steps checked.".into()
+        "Every multiset of union/insert operations of the stated depth over the stated alphabets (incl. 3-cycles on a 3-slot leaf, all 23 permutations on a 4-slot leaf, redundancy, self-reference, binders), every distinct ordering (and the all-flipped orientation), is executed with union_justified and a distinct label per asserted equation, in the `explanations` build (thorough: also with the crate's internal checks). For EVERY pair of tracked (sub)terms and relative naming that the ground congruence closure says is equal, explain_equivalence must return; an independent checker that works on terms (get_syn_expr of both sides of every ProvenEqRaw::equ) walks the proof DAG once: reflexivity (alpha-equal sides), symmetry (flip up to renaming), transitivity (renamings injective on each side of each premise that agree on the middle term), congruence (same operator and slot arguments, binders renamed alike, children match premises position-wise), explicit leaves (instance of the user's equation with that label), and the root concludes the queried equation up to injective renaming.  For pairs of different tracked terms the same pair one level up (u(l) = u(r), equal by congruence) is also explained when u(r) was never inserted, so that the query itself is its first insertion.  ProvenEqRaw::to_string of every valid proof is parsed back and compared with the proof DAG (one line per distinct step, consecutive numbers, references to earlier lines only, equation, rule and premises of every line as in the DAG, root last, rendering twice gives the same text). Non-trivial = number of proof steps checked.".into()
     }
     fn assumptions(&self) -> Vec<String> {
         vec!["leaves are justified unions and single-rule applications (a rule leaf is checked to be an instance of the named rule)".into(), "histories that panic while being built are reported as no-answer failures, except in the extra checks_expl configuration where they are only counted (DESIGN §7, D9)".into()]
